@@ -121,6 +121,7 @@ SEARCHERS = {"state_tree": lambda here, out: _search_state_tree(here, out, 4), "
 TOOLS = {"st_replay": "state_tree", "ffi_replay": "ffi_serde", "parser_replay": "parser"}
 
 
+
 def make_violation(prop, cfg, r, f, ob, here, out):
     payload = {"property": prop, "unit": r.unit, "obligation": ob, "function": f["fn"], "kind": f["kind"],
                "clause": f["clause"], "verifier": "verus", "verifier_output": f["raw"],
@@ -152,12 +153,26 @@ def search(prop, cfg, r, here, out, why=""):
     return {"line": f"VIOLATION property={prop} replay={path}", "payload": payload}
 
 
-def make_kani_violation(prop, k, here, out):
+def make_kani_violation(prop, k, here, out, cfg=None, repo=None):
+    from . import kani_run as K
+    unit, _, harness = k["harness"].partition("::")
+    instance = f"{prop}-{unit}"
     payload = {"property": prop, "harness": k["harness"], "obligation": k.get("failed", []), "verifier": "kani/cbmc",
-               "verifier_output": k.get("output", "")[-6000:], "concrete_values": k.get("concrete", [])}
+               "verifier_output": k.get("output", "")[-6000:], "kani_unit": unit, "instance": instance}
+    tests = K.concrete_playback(instance, harness, out)
+    ok, tail = (False, "")
+    if tests:
+        payload["concrete_tests"] = tests
+        subst = {}
+        for ku in (cfg or {}).get("kani_units", []):
+            if ku["unit"] == unit:
+                subst = dict(ku.get("subst_quick", {}))
+        payload["subst"] = subst
+        ok, tail = K.native_playback(instance, unit, tests, here, out, repo or REPO, subst)
+        payload["native_playback"] = {"reproduced": ok, "output": tail}
     path = _write(prop, out, payload)
-    tail = "" if k.get("concrete") else " no-failing-input-found"
-    return {"line": f"VIOLATION property={prop} replay={path}{tail}", "payload": payload}
+    suffix = "" if ok else " no-failing-input-found"
+    return {"line": f"VIOLATION property={prop} replay={path}{suffix}", "payload": payload}
 
 
 def run_known(kf, here, out):
@@ -183,6 +198,15 @@ def replay_file(path, here, out):
     pl = json.load(open(path))
     fi = pl.get("failing_input")
     print(f"obligation: {pl.get('obligation')}")
+    if pl.get("concrete_tests"):
+        from . import kani_run as K
+        import shutil as _sh
+        inst = pl["instance"] + "-replay"
+        _sh.rmtree(os.path.join(out, "kani", inst), ignore_errors=True)
+        ok, tail = K.native_playback(inst, pl["kani_unit"], pl["concrete_tests"], here, out, REPO, pl.get("subst", {}))
+        print(tail[-1200:])
+        print("FAILS (counterexample reproduced natively on the real code)" if ok else "HOLDS (counterexample no longer fails)")
+        return 1 if ok else 0
     if not fi:
         print("no concrete input recorded (no-failing-input-found); verifier output follows")
         print(pl.get("verifier_output", "")[:3000])
